@@ -1,6 +1,6 @@
 """C12 — On-site electricity is used first; load matching can only lower self-use"""
 import re
-from .. import epcheck, oracles
+from .. import tablecheck, epcheck, oracles
 
 THEOREMS = ["C12_priority", "C12_priority_table", "C12_single_source", "C12_fmatch",
             "C12_lm_monotone_step", "C12_lm_monotone_annual"]
@@ -19,7 +19,7 @@ def nontrivial(ep):
 
 def run(tier, seed):
     return epcheck.run("C12", tier, seed, THEOREMS, select, oracles.oracle_c12, nontrivial,
-                       gen_force={"pv"}, multi_eval="lm",
+                       gen_force={"pv"}, multi_eval="lm", extra_stage=tablecheck.stage,
                        n_model=32 if tier == "quick" else 300,
                        level_note="priority allocation, load matching formula/range and monotonicity proved for all "
                                   "component lists; ProdSource::get_priorities pinned by C12_priority_table")
